@@ -643,7 +643,7 @@ func runConversionWL(e *Env) {
 					}
 					var objs []string
 					for k := 0; k < r.NObj; k++ {
-						objs = append(objs, fmt.Sprintf(`{"apiVersion":"%s/%s","kind":"CronTab","metadata":{"name":"o%d"}}`, convGroup, r.From, k))
+						objs = append(objs, fmt.Sprintf(`{"apiVersion":"%s/%s","kind":"CronTab","metadata":{"name":"o-%s-%d"}}`, convGroup, r.From, r.UID, k))
 					}
 					body := fmt.Sprintf(`{"apiVersion":"apiextensions.k8s.io/v1","kind":"ConversionReview","request":{"uid":%q,"desiredAPIVersion":"%s/%s","objects":[%s]}}`, r.UID, convGroup, r.To, strings.Join(objs, ","))
 					req := httptest.NewRequest(http.MethodPost, "/"+convCRD, bytes.NewBufferString(body))
@@ -784,7 +784,7 @@ func runConversionWL(e *Env) {
 			if success != allOK {
 				sig := "success-although-step-failed"
 				if allOK {
-					sig = pathSig("failed-although-all-steps-succeeded")
+					sig = "failed-although-all-steps-succeeded" // not a symptom of a wrong path: never attributed to the path cache
 				} else if firstFail < 0 {
 					sig = pathSig("chain-does-not-reach-target")
 				} else {
@@ -795,6 +795,21 @@ func runConversionWL(e *Env) {
 			}
 			if success && len(review.Response.Objects) != r.NObj {
 				e.Viol("C15", "V5", "object-count", "%s", desc)
+			}
+			if success {
+				// the answer carries this request's objects (the names say which request they belong to)
+				for _, raw := range review.Response.Objects {
+					var ob struct {
+						Metadata struct {
+							Name string `json:"name"`
+						} `json:"metadata"`
+					}
+					_ = json.Unmarshal(raw, &ob)
+					if !strings.HasPrefix(ob.Metadata.Name, "o-"+r.UID+"-") {
+						e.Viol("C15", "V8", "objects-of-another-request", "the answer holds object %q; %s", ob.Metadata.Name, desc)
+						break
+					}
+				}
 			}
 			if !success && firstFail >= 0 && ocs[firstFail].Kind == "message" && review.Response.Result.Message != ocs[firstFail].Msg {
 				e.Viol("C15", "V6", "hook-message-lost", "the failing hook said %q; %s", ocs[firstFail].Msg, desc)
